@@ -10,6 +10,7 @@ RULE = ('IPM files produced by IpmWriter over well-formed messages x 12 codecs x
         'sizes chosen to land on each count); invalid classes at their boundaries: 23/24 bytes, first length MAX / MAX+1, each '
         'unconfigured bitmap bit incl. bit 128; arbitrary byte samples for the correspondence; non-trivial = distinct file of '
         'at least 24 bytes')
+CODEC_ALIASES = True     # one implementation run in three is given an alias spelling of the codec name (worker.for_impl)
 EXHAUSTIVE = {}
 ASSUMPTIONS = ['an unblocked file whose bytes 1012-1013 are both 0x40 may be reported blocked (stated exception)']
 
